@@ -37,8 +37,8 @@ Definition prints_qbytes : list (string * string) := [
   ("neg", "585b1d0d028cb836");
   ("unary_type_agnostic_op", "6bd3d9bb5084f4c7");
   ("is_same_size", "b2a65785ea376499");
-  ("bmm", "d9a1b6be40fe9b26");
-  ("mm", "be35f6f78a403628");
+  ("bmm", "3eb1ab1fb152c011");
+  ("mm", "a3e340b614bd939e");
   ("mul", "2bcab47bd5d1f5b8");
   ("relu", "32a34786ae90cbcc");
   ("_softmax", "b4f288ec4e3c7392");
